@@ -75,6 +75,13 @@ func C13(r *core.Run) int {
 		[]byte("openapi: \"3.0.3\"\n \n\t\n  \t \ninfo: {title: t, version: '1'}\npaths: {}\n"),
 		[]byte("\n\n  \nopenapi: \"3.0.3\"\ninfo: {title: t, version: '1'}   \npaths: {}\t\n\n \n"),
 		[]byte("{\n  \n\t\"openapi\": \"3.0.3\",\n    \n\"info\": {\"title\": \"t\", \"version\": \"1\"}, \"paths\": {}\n}\n"))
+	// the last non-empty line ends in blanks (with and without a final newline)
+	contents = append(contents,
+		[]byte("openapi: \"3.0.3\"\ninfo: {title: t, version: '1'}\npaths: {}  \n"),
+		[]byte("openapi: \"3.0.3\"\ninfo: {title: t, version: '1'}\npaths: {}\t\n"),
+		[]byte("openapi: \"3.0.3\"\ninfo: {title: t, version: '1'}\npaths: {} \t "),
+		[]byte("openapi: \"3.0.3\"\ninfo: {title: t, version: '1'}\npaths: {}  \n\n\n"),
+		[]byte("{\"openapi\":\"3.0.3\",\"info\":{\"title\":\"t\",\"version\":\"1\"},\"paths\":{}} \n"))
 	// long files: whatever the generator does to long literals (wrapping,
 	// chunking, switching strategy) must not depend on where a rune or an
 	// escape sequence happens to fall; the fillers are dense in runes that
